@@ -297,9 +297,38 @@ class Executor(ExprMixin, StmtMixin, LoopMixin):
             return st.pyheap[pk]
         ft = cs.fields[name]
         arr = self.field_array(st, cs.name, name)
-        v = Val(ft, z3.Select(arr, lift(recv)))
+        r = lift(recv)
+        # select(store(a, i, v), r): v when i is r; look through the store when i is a DIFFERENT object created by
+        # `new_object` and r is a parameter or another new object (distinct by the allocation model)
+        while z3.is_app(arr) and arr.decl().kind() == z3.Z3_OP_STORE:
+            i = arr.arg(1)
+            if z3.eq(i, r):
+                v = Val(ft, arr.arg(2))
+                self.note_ref(st, v)
+                return v
+            if self._definitely_distinct(i, r):
+                arr = arr.arg(0)
+                continue
+            break
+        v = Val(ft, z3.Select(arr, r))
         self.note_ref(st, v)
         return v
+
+    def _definitely_distinct(self, i, r) -> bool:
+        def kind(t):
+            if z3.is_const(t) and t.decl().kind() == z3.Z3_OP_UNINTERPRETED:
+                n = t.decl().name()
+                if n.startswith("new_") and "!" in n:
+                    return "new", n
+                if self.c is not None and n in self.c.params and self.spec_mode is False and self.src is not None:
+                    return "param", n
+            return None, None
+
+        ki, ni = kind(i)
+        kr, nr = kind(r)
+        if ki == "new" and kr == "new":
+            return ni != nr
+        return (ki == "new" and kr == "param") or (ki == "param" and kr == "new")
 
     def note_ref(self, st, v: Val, cond=None):
         """Heap well-formedness: a reference read out of an object's field / a container exists, i.e. is allocated at the
